@@ -42,20 +42,33 @@ def run(tier, seed):
         parts.append(p)
     def one(i):
         return vh(["cli", "--layouts", lay, "--templates", tp, "--bin", cli, "--in", parts[i], "--reps", 1 if quick else 6,
-                   "--seed", seed + i], name=f"c19_{i}", timeout=5400)
+                   "--seed", seed + i, "--out-trace", f"{w}/cli_trace_{i}.ndjson"], name=f"c19_{i}", timeout=5400)
     with concurrent.futures.ThreadPoolExecutor(nproc) as ex:
         reps = list(ex.map(one, range(nproc)))
     for r in reps:
         v.add_report(r, "cli cases")
+    # implementation -> specification: what every run of the binary did (exit status, stdout, stderr; well-formedness and
+    # faithfulness as decided by the independent readers) validated against Cli.tla's pipeline (Trace_Cli.tla)
+    tf = f"{w}/cli_trace.ndjson"
+    with open(tf, "w") as out:
+        for i in range(nproc):
+            p = f"{w}/cli_trace_{i}.ndjson"
+            if os.path.exists(p):
+                out.write(open(p).read())
+    validated, ts = validate_trace(v, "Trace_Cli.tla", "Trace_Cli.cfg", tf, splitter="Invoke", max_rounds=8)
+    mc.append(dict(ts, cfg="Trace_Cli.cfg"))
     nviol, _ = v.finish()
     cov = std_cov(st + mc + [g], reps, {
         "rule": "one case = (game family, output mode, output format, string class of the server-supplied strings) or an invalid invocation "
                 "kind, enumerated by TLC from Cli.tla; the real gamedig_cli binary runs against a loopback reference server, stdout is parsed "
                 "by independent readers (serde_json; bson + hex/base64; a strict XML 1.1 well-formedness checker) and compared with the "
                 "library's response for the same replies; distinct by case",
-        "exhaustive": True})
+        "exhaustive": True,
+        "impl_to_spec": "every run of the binary (what was asked; exit status, stdout, stderr, panic; well-formed / faithful as decided by the "
+                        "independent readers) validated line by line against spec/Trace_Cli.tla (ExitRule, NeverPrintsOnError at every step)"},
+        validated=validated)
     write_evidence(PID, tier, seed, "exploration", cov, time.time() - t0, nviol,
-                   ["64-bit identifiers are kept below 2^63 (BSON has no unsigned 64-bit integer; the property quantifies over strings)",
+                   ["64-bit identifiers are kept below 2^63 for the BSON formats (BSON has no unsigned 64-bit integer); the text formats see the full range",
                     "the debug format is only checked for a non-empty document and exit status",
                     "well-formedness is decided by the harness's parsers, not by TLC"])
     return 1 if nviol else 0
